@@ -32,10 +32,18 @@ META = {
                   '(loadParameters() in any state restores every usable stored value unless the write method refuses it), reload_from_this_run '
                   '(start-up, any history, then loadParameters(): every persistent parameter ends with a value of this run - a value an earlier '
                   'run stored never overrides what start-up decided from the configuration), reload_after_startup_keeps_values, load_total / '
-                  'unusable_entry_removes_only_itself.  The model is tied to frappy/persistent.py and the callback loop of '
+                  'unusable_entry_removes_only_itself.  Where the file lives (Small/PersistPlace: name derived from equipment id and module name, '
+                  'cut at every "/", directories on the way to it): save_same_wherever (for every set of existing directories __save_params is '
+                  'the save of the flat model, fault for fault - so all theorems above hold wherever the file lives), '
+                  'missing_dir_never_prevents_saving / _startup (every equipment id, every set of directories, even none), '
+                  'saved_after_directory_removed (any state, the tree below any directory removed behind the module), model_saved_wherever (the '
+                  'model satisfies the Spec clause SavedWherever), without_directory_nothing_is_saved (the counterpart).  The model is tied to frappy/persistent.py and the callback loop of '
                   'Module.announceUpdate by a correspondence run on real modules over all datatypes: the code writes through Python\'s own '
                   'buffered text file onto a raw file whose open / write / close, and os.rename / os.remove, are logged, can fail, and are each '
-                  'followed by a snapshot of the directory taken by an independent reader; the Lean monitors judge every snapshot, retry trial '
+                  'followed by a snapshot of the directory taken by an independent reader; equipment ids with path separators, directories '
+                  'missing at the first start and trees removed between the actions of a history are part of the generated cases, the path of '
+                  'the file is taken from the Lean model, and the Lean monitor SavedWherever judges the whole tree below the log directory after '
+                  'every undisturbed call; the Lean monitors judge every snapshot, retry trial '
                   '(explicit and automatic saves), restart, and every loadParameters() of the histories and on damaged files.',
     'level_note': 'Durability is modelled at the granularity of the operations that reach the operating system (open, each write of the '
                   'buffered writer on the descriptor, close, rename, remove), for the default buffering and for small buffers; rename is atomic; '
@@ -62,6 +70,12 @@ META = {
         'announceUpdate is modelled for updates that are not omitted (the harness clock advances 10 s per reading): valid values, and '
         'updates without valid value (read error, refused value), which save nothing',
         'an OSError while *reading* the file and a failing pathlib mkdir are outside the statement and not injected',
+        'place of the file: equipment ids starting with "/" (pathlib drops <logdir>/persistent) or with a component ".." are not modelled '
+        'and not generated (the code under test would write outside the scratch directory); a regular file standing where a directory is '
+        'needed is not modelled; PWorld.step runs the flat module machine - justified by save_same_wherever for the saves, and checked '
+        'by the correspondence (operations, files, existing directories after every step)',
+        'a module is not required to notice that its file was removed from outside: a save of data Python-== to what the file held '
+        'when it was taken away may do nothing (excused in the silent-save round-trip judge, counted)',
     ],
     'modelled_not_verified': ['json', 'frappy.datatypes import_value/export_value/validate', 'Module.__init__/_handle_writes',
                               'os.rename atomicity', 'io.TextIOWrapper / io.BufferedWriter (chunking, behaviour of close() after a failed write)'],
@@ -69,6 +83,27 @@ META = {
 }
 
 TARGET, TMP = 'T', 'T.tmp'
+MODNAME = 'm'
+
+# where the file of the module under test lives.  NOT computed here: `file` / `chain` (components below the log directory) are
+# what the Lean model (`Small/PersistPlace`: persistentFile, prefixes of its directory) derives from equipment id and module
+# name (driver verb `place`); the file layer calls *that* file `T`.  An implementation that puts its file elsewhere writes
+# files that are not `T`.
+_PLACE = {'eq': 'eq', 'file': ['persistent', 'eq.m.json'], 'chain': [[], ['persistent']]}
+_places = {}
+
+
+def use_place(ctx, eq):
+    """every Bench created from now on belongs to a node with this equipment id"""
+    if eq not in _places:
+        a = ctx.driver.batch([{'p': 'C17', 'k': 'place', 'eq': eq, 'mod': MODNAME}])[0]
+        if 'driver_error' in a:
+            raise RuntimeError(f'driver error: {a}')
+        if a['file'][:1] != ['persistent'] or any(c in ('', '.', '..') or '/' in c for c in a['file']):
+            raise RuntimeError(f'place outside the scratch directory: {a}')
+        _places[eq] = {'eq': eq, 'file': a['file'], 'chain': a['chain']}
+    _PLACE.clear()
+    _PLACE.update(_places[eq])
 
 # the real functions, taken before anything is replaced: the file layer itself and everything the harness does on its own
 # behalf (snapshots, preparing a directory) use these
@@ -79,7 +114,8 @@ _open, _rename, _replace, _remove, _unlink = builtins.open, os.rename, os.replac
 # stubs
 # ----------------------------------------------------------------------------------------
 class _SecNode:
-    equipment_id = 'eq'
+    def __init__(self):
+        self.equipment_id = _PLACE['eq']
 
 
 class _Dispatcher:
@@ -132,7 +168,8 @@ class FaultFS:
     def __init__(self, root, buf=None):
         self.root = str(root)
         self.pdir = os.path.join(self.root, 'persistent')
-        self.tname = 'eq.m.json'
+        self.tname = os.path.join(*_PLACE['file'][1:])      # relative to `pdir`; may lie in a subdirectory
+        self.chain = [os.path.join(self.root, *c) for c in _PLACE['chain']]   # log directory ... directory of the file
         self.buf = buf         # None: the buffering of the builtin open; [buffer size, text chunk size]: a smaller one
         self.reset()
 
@@ -161,16 +198,47 @@ class FaultFS:
         except OSError:
             return None
 
+    def files(self):
+        """every regular file below the log directory: [(components below the log directory, path)]"""
+        out = []
+        for d, _, fns in os.walk(self.root):
+            for fn in fns:
+                path = os.path.join(d, fn)
+                out.append((os.path.relpath(path, self.root).split(os.sep), path))
+        return sorted(out)
+
+    def tree(self):
+        """-> [[components, content as hex]] of every regular file below the log directory"""
+        out = []
+        for comps, path in self.files():
+            try:
+                with _open(path, 'rb') as f:
+                    out.append([comps, f.read().hex()])
+            except OSError:
+                pass
+        return out
+
     def state(self):
-        names = {self.tname: TARGET, self.tname + '.tmp': TMP}
-        try:
-            listing = sorted(names.get(x, x) for x in os.listdir(self.pdir))
-        except OSError:
-            listing = []
-        return (self.content(self.tname), self.content(self.tname + '.tmp'), listing)
+        """(content of the file, content of its temporary neighbour, canonical names of all files below the log directory)"""
+        return (self.content(self.tname), self.content(self.tname + '.tmp'), sorted(self.canon(path) for _, path in self.files()))
+
+    def dirs(self):
+        """which directories exist, from the log directory down to the directory of the file"""
+        return [os.path.isdir(d) for d in self.chain]
+
+    def set_dirs(self, have):
+        """puts back a state of the directories in which fewer existed: the first one that was missing is removed with its tree"""
+        for d, h in zip(self.chain, have):
+            if not h:
+                shutil.rmtree(d, ignore_errors=True)
+                break
+
+    def wipe(self, depth):
+        """the tree below (and including) the `depth`-th directory on the way to the file disappears"""
+        shutil.rmtree(self.chain[min(depth, len(self.chain) - 1)], ignore_errors=True)
 
     def set_state(self, target, tmp):
-        os.makedirs(self.pdir, exist_ok=True)
+        """puts the two files into this state; directories are created only if a file is to be written"""
         for name, c in ((self.tname, target), (self.tname + '.tmp', tmp)):
             path = os.path.join(self.pdir, name)
             if c is None:
@@ -179,6 +247,7 @@ class FaultFS:
                 except OSError:
                     pass
             else:
+                os.makedirs(os.path.dirname(path), exist_ok=True)
                 with _open(path, 'wb') as f:
                     f.write(c)
 
@@ -428,6 +497,22 @@ def gen_dt(rng, depth=0):
     return ['struct', {n: gen_dt(rng, depth + 1) for n in rng.sample(['i', 's', 'x', 'key2'], rng.choice([1, 2, 3]))}]
 
 
+def dt_catalogue():
+    """every container kind over every leaf kind, and the containers nested in each other over the leaves whose transport form
+    differs from the value (scaled integers, blobs): the datatype combinations a round trip has to survive, each met in every
+    run instead of when the random generator happens to build it"""
+    leaves = [['float', 0, 10], ['int', 0, 2 ** 40], ['scaled', 0.1, 0, 100], ['bool'], ['enum', {'a': 1, 'b': 2, 'c': 5}],
+              ['string', None, False], ['blob', 8]]
+    out = []
+    for leaf in leaves:
+        out += [['array', leaf, 1, 3], ['tuple', [leaf, ['int', 0, 10]]], ['struct', {'x': leaf, 'i': ['int', 0, 10]}]]
+    for leaf in (['scaled', 0.25, -10, 10], ['blob', 64]):
+        out += [['array', ['array', leaf, 1, 2], 1, 2], ['array', ['tuple', [leaf, ['bool']]], 1, 3], ['array', ['struct', {'s': leaf}], 1, 2],
+                ['tuple', [['array', leaf, 1, 3], ['string', 20, True]]], ['struct', {'key2': ['array', leaf, 1, 3]}],
+                ['struct', {'x': ['tuple', [leaf, leaf]]}]]
+    return out
+
+
 def gen_val(rng, d, valid=True):
     """plain value; valid=False: may be outside the limits (a reading may be), still of the right type"""
     k = d[0]
@@ -658,7 +743,7 @@ def step_record(bench, m, exc):
     return {'evs': [list(e) for e in fs.log], 'snaps': list(fs.snaps), 'raised': exc is not None, 'exc': exc,
             'values': values_of(m) if m is not None else None, 'writeDict': wd_of(m) if m is not None else None,
             'writes': list(m.wlog) if m is not None else [], 'target': t, 'tmp': tmp, 'listing': listing,
-            'hooks': hooks_of(m) if m is not None else None}
+            'hooks': hooks_of(m) if m is not None else None, 'dirs': fs.dirs(), 'tree': fs.tree()}
 
 
 def litter_listing(rec):
@@ -697,10 +782,19 @@ def run_impl(spec, case, trials=True, crash_budget=None, rng=None):
         fs = bench.fs
         init = case.get('file')
         fs.set_state(None if init is None else bytes.fromhex(init), None if case.get('stale') is None else bytes.fromhex(case['stale']))
+        if case.get('have') is not None and init is None and case.get('stale') is None:
+            # the first `have` directories on the way to the file exist, the others do not (0: not even the log directory)
+            k = min(case['have'], len(fs.chain))
+            if k:
+                os.makedirs(fs.chain[k - 1], exist_ok=True)
+            if k < len(fs.chain):
+                shutil.rmtree(fs.chain[k], ignore_errors=True)
         pre = fs.state()
+        pre_dirs = fs.dirs()
         m, exc = bench.create(spec, case.get('fault'), trace=True)
         rec = step_record(bench, m, exc)
         rec['pre'] = pre
+        rec['pre_dirs'] = pre_dirs
         rec['instr'] = bench.created_instr
         out['steps'].append(rec)
         if m is None:
@@ -710,6 +804,17 @@ def run_impl(spec, case, trials=True, crash_budget=None, rng=None):
         rec['data'] = out['datas'][-1]
         for act in case['acts']:
             pre = fs.state()
+            pre_dirs = fs.dirs()
+            if act['a'] == 'wipe':
+                # not an action of the module: somebody removes a directory behind its back
+                fs.wipe(act['depth'])
+                fs.reset(None)
+                m.wlog = []
+                rec = step_record(bench, m, None)
+                rec.update(pre=pre, pre_dirs=pre_dirs, instr=[], data=export_data(m))
+                out['datas'].append(rec['data'])
+                out['steps'].append(rec)
+                continue
             believed = m.persistentData
             pstate = {n: (p.value, p.readerror, p.timestamp) for n, p in m.parameters.items()}
             wdstate = dict(m.writeDict)
@@ -724,6 +829,7 @@ def run_impl(spec, case, trials=True, crash_budget=None, rng=None):
                     exc = type(e).__name__
             rec = step_record(bench, m, exc)
             rec['pre'] = pre
+            rec['pre_dirs'] = pre_dirs
             rec['instr'] = tr.seen
             rec['data'] = export_data(m)
             out['datas'].append(rec['data'])
@@ -758,6 +864,7 @@ def run_impl(spec, case, trials=True, crash_budget=None, rng=None):
                     if kind != 'remove' and (kind != 'write' or k % 3 == 1):
                         variants.append((0, False, True))      # ... and the remove of the clean-up fails as well
                     for part, sticky, cleanup in variants:
+                        fs.set_dirs(pre_dirs)      # a save that had to create its directory meets every fault in that state, too
                         fs.set_state(pre[0], pre[1])
                         m.persistentData = believed
                         m.paramCallbacks = {n: list(cbs) for n, cbs in callbacks.items()}
@@ -974,6 +1081,9 @@ class Tables:
 # ----------------------------------------------------------------------------------------
 # histories
 # ----------------------------------------------------------------------------------------
+EQ_SEGMENTS = ['eq', 'ex.frappy.demo', 'lab', 'cryo7', 'a', 'rack 3', 'x.y', 'ümlaut', '.hidden', 'unit_1', '...']
+
+
 def gen_case(rng, spec, big):
     """a history without faults (`place_faults` adds them)"""
     acts = []
@@ -1004,6 +1114,30 @@ def gen_case(rng, spec, big):
             act = {'a': 'factoryReset'}
         acts.append(act)
     case = {'acts': acts, 'file': None, 'stale': None, 'fault': None, 'buf': rng.choice(BUFFERINGS)}
+    # where the file lives: the equipment id is free text; 40 % contain path separators (the file then lives in a subdirectory
+    # of <logdir>/persistent), some with superfluous ones.  (Not generated: ids starting with '/' or with a component '..' -
+    # the file would leave the scratch directory; outside the model, see Small/PersistPlace.)
+    if rng.random() < 0.4:
+        segs = [rng.choice(EQ_SEGMENTS) for _ in range(rng.randint(2, 3))]
+        case['eq'] = rng.choice(['/', '/', '/', '//', '/./']).join(segs) + rng.choice(['', '', '', '/'])
+    elif rng.random() < 0.5:
+        case['eq'] = rng.choice(EQ_SEGMENTS)
+    # which directories exist at the first start (None: whatever the preparation of the files left; 0: not even the log directory)
+    if rng.random() < 0.5:
+        case['have'] = rng.randint(0, 4)
+    # directories disappear while the module runs (25 % of the histories): the tree below the log directory, <logdir>/persistent
+    # or a subdirectory is removed; in 75 % a persistent parameter changes afterwards (saved at once if `auto`, else by an
+    # explicit save), so that the next save has something to write
+    if rng.random() < 0.25:
+        for _ in range(rng.randint(1, 2)):
+            at = rng.randint(0, len(acts))
+            ins = [{'a': 'wipe', 'depth': rng.randint(0, 3)}]
+            if pers and rng.random() < 0.75:
+                p = rng.choice(pers)
+                ins.append({'a': 'set', 'name': p['name'], 'val': gen_val(rng, p['dt'], valid=True)})
+                if p['flag'] == 'on' or rng.random() < 0.3:
+                    ins.append({'a': 'save'})
+            acts[at:at] = ins
     if rng.random() < 0.15:
         case['fault'] = {'idx': rng.randint(0, 12), 'part': rng.choice([0, 0.5]), 'sticky': rng.random() < 0.3, 'cleanup': rng.random() < 0.2}
     if rng.random() < 0.25:
@@ -1026,6 +1160,8 @@ def place_faults(rng, spec, case):
     for i, act in enumerate(case['acts']):
         out.append(act)
         n = len(dry[i + 1]['evs']) if i + 1 < len(dry) else 0
+        if act['a'] == 'wipe':
+            continue
         if n and rng.random() < 0.35:
             act['fault'] = {'idx': rng.choice([0, 1, n - 4, n - 3, n - 2, n - 1, rng.randrange(n)]) % n, 'part': rng.choice([0, 0.5, 1]),
                             'sticky': rng.random() < 0.3, 'cleanup': rng.random() < 0.2}
@@ -1068,6 +1204,9 @@ def model_request(spec, case, ref, impl, tables):
     acts = []
     for i, act in enumerate(case['acts']):
         rec = steps[i + 1] if i + 1 < len(steps) else {'evs': []}
+        if act['a'] == 'wipe':
+            acts.append({'a': 'wipe', 'depth': min(act['depth'], len(_PLACE['chain']) - 1)})
+            continue
         a = {'a': act['a'], 'fault': fault_json(act.get('fault'), rec)}
         if act['a'] == 'set':
             a['name'] = act['name']
@@ -1078,12 +1217,14 @@ def model_request(spec, case, ref, impl, tables):
             a['name'] = act['name']
         acts.append(a)
     return {'p': 'C17', 'k': 'hist', 'tables': tables, 'params': params, 'wd0': wd0, 'file': case.get('file'),
-            'stale': case.get('stale'), 'fault': fault_json(case.get('fault'), steps[0]), 'acts': acts}
+            'stale': case.get('stale'), 'fault': fault_json(case.get('fault'), steps[0]), 'acts': acts,
+            'eq': _PLACE['eq'], 'mod': MODNAME, 'dirs0': steps[0]['pre_dirs']}
 
 
 def obs_step(rec):
     return {'evs': rec['evs'], 'writes': rec['writes'], 'raised': rec['raised'], 'values': rec['values'],
-            'writeDict': rec['writeDict'], 'hooks': rec['hooks'], 'target': hexo(rec['target']), 'tmp': hexo(rec['tmp'])}
+            'writeDict': rec['writeDict'], 'hooks': rec['hooks'], 'target': hexo(rec['target']), 'tmp': hexo(rec['tmp']),
+            'dirs': rec['dirs']}
 
 
 def new_bytes(data):
@@ -1150,6 +1291,7 @@ def reload_requests(spec, case, ref, impl, tables):
 
 
 _shrunk = [0]
+_shrunk_place = [0]
 
 
 def reload_findings(spec, case, kind, steps, verdicts):
@@ -1186,6 +1328,43 @@ def shrink_reload(ctx, spec, case, ref, key):
     return dict(case, acts=small)
 
 
+def place_requests(case, steps):
+    """-> [(step index, `judge_place` request)] for every call of the history that met no injected I/O failure"""
+    out = []
+    for i, rec in enumerate(steps):
+        act = case['acts'][i - 1] if i > 0 else {'a': 'start', 'fault': case.get('fault')}
+        if act['a'] == 'wipe' or act.get('fault') is not None or rec['values'] is None:
+            continue
+        out.append((i, {'p': 'C17', 'k': 'judge_place', 'eq': _PLACE['eq'], 'mod': MODNAME, 'new': new_bytes(rec['data']).hex(),
+                        'raised': rec['raised'], 'ops': len(rec['evs']), 'tree': rec['tree']}))
+    return out
+
+
+def place_finding(case, full, steps, where, a):
+    rec = steps[where]
+    what = 'module creation' if where == 0 else f'step {where} ({case["acts"][where - 1]["a"]})'
+    found = dict((tuple(c), h) for c, h in rec['tree']).get(tuple(a['file']))
+    return {'sig': 'C17:not-saved-in-place',
+            'what': f'{what} met no I/O failure and ' + (f'raised {rec["exc"]}' if rec['raised'] else 'returned')
+                    + f' after {len(rec["evs"])} file operations ({[e[:2] for e in rec["evs"]][:3]} ...); '
+                    + ('its file does not exist' if found is None else 'its file does not hold the snapshot of the current values'
+                       if found != new_bytes(rec['data']).hex() else 'its file is in place')
+                    + (f', other files: {a["stray"]}' if a['stray'] else '') + f' - {place_text(rec)}',
+            'case': dict(full, case=case, where=['step', where])}
+
+
+def shrink_place(ctx, spec, case):
+    """smallest sub-history (faults dropped) in which the Lean monitor still rejects what a call left at the place of the file"""
+    def verdicts(acts):
+        c = dict(case, acts=acts, fault=None)
+        impl = run_impl(spec, c, trials=False)
+        rq = place_requests(c, impl['steps'])
+        return c, impl['steps'], [(i, a) for (i, _), a in zip(rq, ctx.driver.batch([r for _, r in rq]) if rq else []) if not a['ok']]
+    plain = [{k: v for k, v in a.items() if k != 'fault'} for a in case['acts']]
+    small = ddmin(plain, lambda acts: bool(verdicts(acts)[2]), max_tests=40)
+    return verdicts(small)
+
+
 def judge_failed_startup(ctx, res, spec, case, ref, first, full):
     """the save at the end of start-up hit the injected fault and module creation raised: that save is a save like any
     other (and the only one that can meet a missing file) - the file must be the complete old or the complete new
@@ -1203,7 +1382,7 @@ def judge_failed_startup(ctx, res, spec, case, ref, first, full):
         mo = ctx.driver.batch([model_request(spec, dict(case, acts=[]), ref, {'steps': [first]}, tables)])[0]
         if 'driver_error' in mo:
             raise RuntimeError(f'driver error: {mo}')
-        keys = ('evs', 'raised', 'target', 'tmp')
+        keys = ('evs', 'raised', 'target', 'tmp', 'dirs')
         got, want = obs_step(first), mo['steps'][0]
         if any(got[k] != want[k] for k in keys):
             res.disagreements.append({'case': full, 'first_bad_step': 0, 'model': {k: want[k] for k in keys},
@@ -1241,8 +1420,25 @@ def judge_failed_startup(ctx, res, spec, case, ref, first, full):
 
 def check_case(ctx, res, spec, case, quick_crash=3, kind='history'):
     """run one history on the implementation, compare with the model, judge; appends to res"""
+    use_place(ctx, case.get('eq', 'eq'))
+    try:
+        return _check_case(ctx, res, spec, case, quick_crash, kind)
+    finally:
+        use_place(ctx, 'eq')
+
+
+def place_text(rec):
+    return ('the file ' + '/'.join(['<logdir>'] + _PLACE['file']) + ', of the directories '
+            + str(['/'.join(['<logdir>'] + c) for c in _PLACE['chain']]) + ' there were ' + str(rec.get('pre_dirs')) + ' before the call')
+
+
+def _check_case(ctx, res, spec, case, quick_crash, kind):
     rng = ctx.rng
+    # the reference module (what Module.__init__ makes of the class and the configuration: an input of the model) is created
+    # at the plain default place, not at the place under test
+    use_place(ctx, 'eq')
     ref = restart(spec, None, None)
+    use_place(ctx, case.get('eq', 'eq'))
     if ref.get('module') is None:
         raise RuntimeError(f'reference module cannot be created: {ref["exc"]} {spec}')
     impl = run_impl(spec, case)
@@ -1256,7 +1452,7 @@ def check_case(ctx, res, spec, case, quick_crash=3, kind='history'):
         if case.get('fault') is None:
             res.violations.append({'sig': 'C17:startup-aborted:' + str(first['exc']),
                                    'what': f'module creation raised {first["exc"]} with stored file content '
-                                           f'{bytes.fromhex(case["file"] or "")[:60]!r}', 'case': full})
+                                           f'{bytes.fromhex(case["file"] or "")[:60]!r} ({place_text(first)})', 'case': full})
         else:
             judge_failed_startup(ctx, res, spec, case, ref, first, full)
         res.count('start.aborted')
@@ -1286,6 +1482,15 @@ def check_case(ctx, res, spec, case, quick_crash=3, kind='history'):
             res.count('instr.change-without-logged-operation')
             reqs.append({'p': 'C17', 'k': 'judge_litter', 'target': TARGET, 'listing': litter_listing(rec)})
             tags.append(('litter', ('step', i)))
+    # ---- where the file lives: every call that met no injected I/O failure (start-up, every action) must not fail, and if it
+    # touched the file system the snapshot of the current values is in place - at the path the Lean model derives from equipment
+    # id and module name, whatever directories existed - and nothing else is in the tree
+    for i, rq in place_requests(case, steps):
+        reqs.append(rq)
+        tags.append(('place', i))
+        res.traces += 1
+        if steps[i]['evs']:
+            res.count('place.saved.dirs-before=%s/%s' % (sum(steps[i]['pre_dirs']), len(steps[i]['pre_dirs'])))
     # ---- fork trials
     for j, t in enumerate(impl['trials']):
         new = new_bytes(t['data'])
@@ -1309,15 +1514,34 @@ def check_case(ctx, res, spec, case, quick_crash=3, kind='history'):
     # injected fault and did not get the snapshot onto the disk, the next step that is a save by the documented triggers
     # (saveParameters(), or an update of an `auto` parameter, undisturbed, no write pending) must work again
     flags = {p['name']: p['flag'] for p in spec['params']}
+    # Not demanded by the statement: that a module notices that somebody took its file away.  From the moment a wipe removed the
+    # file until the next snapshot reaches the disk, a step that touches no file while its data are Python-== to what the file held
+    # when it was taken away is excused by the two judges that ask "why did this save do nothing?" (retry along the history, round
+    # trip after a silent save).  With any other data they judge as ever.
+    excused, taken_away, on_disk = [False] * len(steps), False, None
+    for i, rec in enumerate(steps):
+        if i > 0 and case['acts'][i - 1]['a'] == 'wipe':
+            if rec['pre'][0] is not None and rec['target'] is None:
+                taken_away = True
+                try:
+                    on_disk = json.loads(rec['pre'][0].decode('utf-8'))
+                except ValueError:
+                    on_disk = None
+            continue
+        if rec['evs'] and rec['target'] is not None and rec['target'] == new_bytes(rec['data']):
+            taken_away = False
+        excused[i] = taken_away and not rec['evs'] and rec['data'] == on_disk
     failed_at = None
     for i, rec in enumerate(steps):
-        if i == 0:
+        if i == 0 or case['acts'][i - 1]['a'] == 'wipe':
             continue
         act = case['acts'][i - 1]
         newb = new_bytes(rec['data'])
         due = (act.get('fault') is None and not steps[i - 1]['writeDict'] and not rec['raised']
                and (act['a'] == 'save' or (act['a'] == 'set' and flags.get(act['name']) == 'auto')))
-        if failed_at is not None and due:
+        if failed_at is not None and due and excused[i]:
+            res.count('retry.in-history.after-wipe.excused')
+        elif failed_at is not None and due:
             reqs.append({'p': 'C17', 'k': 'judge_retry', 'new': newb.hex(), 'mid': hexo(rec['pre'][0]),
                          'fin': hexo(rec['target']), 'ops2': len(rec['evs'])})
             tags.append(('retry-line', (failed_at, i)))
@@ -1341,13 +1565,19 @@ def check_case(ctx, res, spec, case, quick_crash=3, kind='history'):
             cache[key] = r
         return cache[key]
     for i, rec in enumerate(steps):
+        if i > 0 and case['acts'][i - 1]['a'] == 'wipe':
+            continue
         if not rec['evs']:
             # a step that is a save by the documented triggers (saveParameters(), or a change of an `auto` parameter, while
             # no configured write is pending), was not disturbed and returned normally, but touched no file: the file
-            # must hold the values already ("loading after saving restores ...")
+            # must hold the values already ("loading after saving restores ...").  Not demanded: that the module notices
+            # that somebody took its file away - after a wipe, a save of the very data that were last put on disk is excused
             act = case['acts'][i - 1] if i > 0 else None
             if (act is not None and act.get('fault') is None and not rec['raised'] and not steps[i - 1]['writeDict']
                     and (act['a'] == 'save' or (act['a'] == 'set' and flags.get(act['name']) == 'auto'))):
+                if excused[i]:
+                    res.count('roundtrip.silent-save-after-wipe.excused')
+                    continue
                 r = restarted(rec['target'], rec['tmp'])
                 reqs.append({'p': 'C17', 'k': 'judge_restore', 'saved': [nongiven_saved(spec, ref, rec['values'])],
                              'restored': r['values'] if r['values'] is not None else []})
@@ -1401,7 +1631,7 @@ def check_case(ctx, res, spec, case, quick_crash=3, kind='history'):
                                   'model': model_steps[bad] if bad < len(model_steps) else None,
                                   'impl': impl_obs[bad] if bad < len(impl_obs) else None})
     # ---- verdicts of the monitors
-    bad_reloads = []
+    bad_reloads, bad_places = [], []
     for (tag, where), a in zip(tags[1:], answers[1:]):
         if tag == 'snap' and a['bad'] is not None:
             rec = steps[where[1]] if where[0] == 'step' else impl['trials'][where[1]]['first']
@@ -1417,6 +1647,8 @@ def check_case(ctx, res, spec, case, quick_crash=3, kind='history'):
                                    'what': f'between two instructions of frappy/persistent.py (line {line}) the persistent file holds '
                                            f'neither the old nor the new snapshot: {(snap or b"<no file>")[:80]!r}',
                                    'case': dict(full, where=where)})
+        elif tag == 'place' and not a['ok']:
+            bad_places.append((where, a))
         elif tag == 'litter' and not a['ok']:
             rec = steps[where[1]] if where[0] == 'step' else impl['trials'][where[1]]['first']
             res.violations.append({'sig': 'C17:tmp-left-behind', 'what': f'after the save returned the directory holds {rec["listing"]}',
@@ -1448,6 +1680,14 @@ def check_case(ctx, res, spec, case, quick_crash=3, kind='history'):
                                    'case': full})
         elif tag == 'reload' and (a['thisrun'] or a['restores']):
             bad_reloads.append((where[1], a))
+    if bad_places:
+        small, sm_steps, verdicts = case, steps, bad_places
+        if _shrunk_place[0] < 3:
+            _shrunk_place[0] += 1
+            c2, st2, v2 = shrink_place(ctx, spec, case)
+            if v2:
+                small, sm_steps, verdicts = c2, st2, v2
+        res.violations.extend(place_finding(small, full, sm_steps, i, a) for i, a in verdicts)
     if bad_reloads:
         small, sm_steps, verdicts = case, steps, bad_reloads
         if _shrunk[0] < 3:
@@ -1465,6 +1705,8 @@ def check_case(ctx, res, spec, case, quick_crash=3, kind='history'):
     nsaves = sum(1 for r in steps if r['evs'])
     faulted = sum(1 for r in steps if any(e[-1] == 'FAULT' for e in r['evs']))
     res.count('history.saves=%s' % min(nsaves, 4))
+    res.count('place.subdirs=%s' % (len(_PLACE['chain']) - 2))
+    res.count('history.wipes=%s' % sum(1 for a in case['acts'] if a['a'] == 'wipe'))
     res.count('history.faulted-inline=%s' % min(faulted, 2))
     for p in spec['params']:
         res.count('dt.' + p['dt'][0])
@@ -1711,7 +1953,10 @@ def run(ctx):
                 'two saves that touched the disk and a fork of fault trials.  corruptions: truncation at every byte (files <= 400 B), bit flips, type changes, unknown/missing keys, bad '
                 'entries, each met by a restart and by loadParameters() of a running module (quick tier: 30 % of the truncations and bit flips '
                 'for the latter); non-trivial = readable dictionary that '
-                'changes some restored value.  40 % of the histories start from the file of an earlier run, 60 % of those written under '
+                'changes some restored value.  place: 40 % of the histories with an equipment id containing path separators (1-3 subdirectories), '
+                '50 % with only some (or none) of the directories existing at the first start, 25 % with 1-2 removals of a directory tree '
+                '(log directory, persistent, a subdirectory) between the actions, mostly followed by a change and its save.  datatype '
+                'catalogue: every container kind over every leaf kind, containers nested over scaled / blob, one history each.  40 % of the histories start from the file of an earlier run, 60 % of those written under '
                 'an edited configuration, half of them with loadParameters() right after start-up; every loadParameters() is judged '
                 '(restored values, provenance of the values)')
     big = ctx.tier == 'thorough' or ctx.escalated
@@ -1721,6 +1966,7 @@ def run(ctx):
     for _ in range(ctx.budget(110, 400)):
         spec = gen_spec(rng, big)
         case = gen_case(rng, spec, big)
+        use_place(ctx, case.get('eq', 'eq'))
         if rng.random() < 0.4:
             # start from a file written by an earlier run for (possibly) other values, or a damaged one; the configuration
             # may have been edited between the two runs (values added, removed, changed)
@@ -1746,6 +1992,17 @@ def run(ctx):
             if n:
                 case['fault']['idx'] = rng.choice([0, 1, n - 4, n - 3, n - 2, n - 1, rng.randrange(n)]) % n
         check_case(ctx, res, spec, case, quick_crash=None if big else 4)
+    # ---- datatype catalogue: one persistent parameter of each combination, changed and saved twice; every save that reached
+    # the disk is followed by a restart judged by the round-trip monitor (plus everything else check_case does)
+    for d in dt_catalogue():
+        spec = {'params': [{'name': 'p0', 'dt': d, 'flag': 'on', 'write': False, 'readonly': False, 'default': gen_val(rng, d),
+                            'classflag': 'on'}], 'cfg': {}}
+        acts = []
+        for _ in range(2):
+            acts += [{'a': 'set', 'name': 'p0', 'val': gen_val(rng, d)}, {'a': 'save'}]
+        check_case(ctx, res, spec, {'acts': acts, 'file': None, 'stale': None, 'fault': None, 'buf': None},
+                   quick_crash=None if big else 3, kind='history')
+        res.count('catalogue.dt')
     for _ in range(ctx.budget(12, 40)):
         check_corruptions(ctx, res, gen_spec(rng, False), big)
     return res
